@@ -297,9 +297,11 @@ def run_unit(unit, rng, ctx):
                 return
             raise
         n_events = len(tr.events)
-        default_settings = f == 1.0
+        residence = int(rng.choice([0, 0, 2, 4]))
+        default_settings = f == 1.0 and residence == 0
+        ctx.count(f'minimal_residence:{residence}')
         try:
-            j = tr.jumps()
+            j = tr.jumps(minimal_residence=residence)
         except ValueError as exc:
             if 'No jumps found' not in str(exc):
                 raise
